@@ -8,6 +8,7 @@ import (
 	"math/cmplx"
 	"runtime"
 	"sync"
+	"sync/atomic"
 
 	R "github.com/Trisia/randomness"
 	"github.com/Trisia/randomness/detect"
@@ -146,6 +147,16 @@ func runC06(c *ev.Ctx) {
 		// switch-over lines exactly and their neighbours
 		for _, x := range []float64{1, math.Nextafter(1, 0), math.Nextafter(1, 2), a, math.Nextafter(a, 0), math.Nextafter(a, a+1), 0, 20*a + 200} {
 			add(x)
+		}
+		// arguments far below 1 (down to the smallest subnormal) and around machine epsilon: for small
+		// shapes Q is still measurably below 1 there (Q(1/2,x) = erfc(sqrt x))
+		if k <= 16 || k%97 == 0 {
+			for e := 13; e <= 323; e += 1 + (e-13)/6 {
+				add(math.Pow(10, -float64(e)) * (1 + r.Float()))
+			}
+			for _, x := range []float64{math.SmallestNonzeroFloat64, 2.2250738585072014e-308, 0x1p-53, math.Nextafter(0x1p-53, 0), math.Nextafter(0x1p-53, 1), 0x1p-52, 0x1p-54, 1e-16, 1.2e-16, 1e-17, 1e-20, 1e-24, 1e-25} {
+				add(x)
+			}
 		}
 		// x <= 0 probes (kept outside the [0,..] clamp)
 		for _, x := range []float64{0, math.Copysign(0, -1), -1e-300, -1, math.Inf(-1)} {
@@ -335,6 +346,35 @@ func runC12(c *ev.Ctx) {
 		}
 	}
 	c.Count("thresholds_checked", int64(top))
+	// the same range once more from 16 goroutines at once, each walking it in its own order (neighbouring
+	// goroutines ask for unrelated s at any moment), then the workflow sample counts again sequentially:
+	// a pure function of s must not depend on who else is calling it or on what was asked before
+	{
+		var nbad int64
+		parallelN(16, 16, func(w int) {
+			step := []int{1, 7919, 104729, 3, 999983, 17, 65537, 31, 2, 611953, 5, 257, 13, 127, 8191, 11}[w]
+			for i := 0; i < top; i++ {
+				if atomic.LoadInt64(&nbad) > 30 {
+					return
+				}
+				s := int((int64(i)*int64(step)+int64(w)*62501)%int64(top)) + 1
+				if i%3 == 0 {
+					s = []int{20, 50, 1000, 1, 100}[(i/3+w)%5] // the sample counts every workflow asks for
+				}
+				got := detect.Threshold(s)
+				if want := oracle.Threshold(s); got != want {
+					atomic.AddInt64(&nbad, 1)
+					c.Violation(fmt.Sprintf("threshold:concurrent:s=%d", s), fmt.Sprintf("Threshold(%d)=%d while 15 other goroutines call Threshold with other s; correct value %d", s, got, want), "threshold", s)
+				}
+			}
+		})
+		c.Count("thresholds_checked_under_16_concurrent_callers", int64(16*top))
+		for _, s := range []int{20, 50, 1000, 1, 100, 999999, 20, 50} {
+			if got, want := detect.Threshold(s), oracle.Threshold(s); got != want {
+				c.Violation(fmt.Sprintf("threshold:after-concurrent:s=%d", s), fmt.Sprintf("Threshold(%d)=%d after the concurrent phase; correct value %d", s, got, want), "threshold", s)
+			}
+		}
+	}
 	c.Sample(map[string]interface{}{"s": 50, "Threshold": detect.Threshold(50), "reference": oracle.Threshold(50)})
 	c.Sample(map[string]interface{}{"s": 91091, "Threshold": detect.Threshold(91091), "reference": oracle.Threshold(91091), "note": "real value is exactly the integer 90090"})
 
@@ -685,6 +725,61 @@ func runC19(c *ev.Ctx) {
 			c.Sample(map[string]interface{}{"case": cs, "worst_err_over_norm": worst})
 		}
 	})
+	// one transformer (and value copies of it) used by eight goroutines at once, each on its own slices:
+	// every caller must still get the transform of its own input
+	for _, lg := range []int{5, 8, 11, 14, 16} {
+		N := 1 << uint(lg)
+		f, err := fft.New(N)
+		if err != nil {
+			c.Violation(fmt.Sprintf("fft.New:%d", N), err.Error(), "fftnew", N)
+			continue
+		}
+		rounds := 40
+		if lg >= 14 {
+			rounds = 12
+		}
+		var nbad int64
+		parallelN(8, 8, func(g int) {
+			ff := f // value copy
+			for rd := 0; rd < rounds && atomic.LoadInt64(&nbad) == 0; rd++ {
+				fq := (g*131 + rd*17 + 1) % N
+				amp := float64(g + 1)
+				x := make([]complex128, N)
+				for j := range x {
+					sn, cs := math.Sincos(2 * math.Pi * float64((fq*j)%N) / float64(N))
+					x[j] = complex(amp*cs, amp*sn)
+				}
+				orig := append([]complex128(nil), x...)
+				var X, back []complex128
+				if p, m := guard(func() {
+					if g%2 == 0 {
+						X = f.Transform(x)
+					} else {
+						X = ff.Transform(x)
+					}
+					back = f.Inverse(append([]complex128(nil), X...))
+				}); p {
+					atomic.AddInt64(&nbad, 1)
+					c.Violation(fmt.Sprintf("fft:shared:logN=%d:panic", lg), m, "fftshared", lg)
+					return
+				}
+				tol := 1e-9 * amp * float64(N)
+				for k := range X {
+					want := complex(0, 0)
+					if k == fq {
+						want = complex(amp*float64(N), 0)
+					}
+					if cabs(X[k]-want) > tol || cabs(back[k]-orig[k]) > 1e-9*amp*math.Sqrt(float64(N)) {
+						atomic.AddInt64(&nbad, 1)
+						c.Violation(fmt.Sprintf("fft:shared:logN=%d", lg), fmt.Sprintf("N=%d, transformer shared by 8 goroutines: tone at %d (amplitude %g) gives X[%d]=%v (want %v), round trip x[%d]=%v (was %v)", N, fq, amp, k, X[k], want, k, back[k], orig[k]), "fftshared", lg)
+						return
+					}
+				}
+				c.Count("shared_transformer_concurrent_transforms", 1)
+			}
+		})
+		c.Eval(ev.HashStr(fmt.Sprintf("shared%d", lg)), true)
+	}
 	// constructor contract
 	chk := func(n int) {
 		var f fft.FFT
